@@ -117,14 +117,30 @@ def hexf(b):
     return b.hex()
 
 
+_RUN = None
+
+
 def hexin(b):
-    """rendering for INPUT fields (always exact; runs of one byte are compressed)"""
+    """rendering for INPUT fields (always exact; long runs of one byte are run-length encoded,
+    parts joined by '+')"""
+    global _RUN
     b = bytes(b)
     if not b:
         return '-'
-    if len(b) > 64 and b.count(b[0:1]) == len(b):
-        return '*%d:%02x' % (len(b), b[0])
-    return b.hex()
+    if len(b) <= 256:
+        return b.hex()
+    if _RUN is None:
+        import re
+        _RUN = re.compile(rb'(.)\1{127,}', re.S)
+    parts, pos = [], 0
+    for m in _RUN.finditer(b):
+        if m.start() > pos:
+            parts.append(b[pos:m.start()].hex())
+        parts.append('*%d:%02x' % (m.end() - m.start(), b[m.start()]))
+        pos = m.end()
+    if pos < len(b):
+        parts.append(b[pos:].hex())
+    return '+'.join(parts)
 
 
 def hexlist(l):
